@@ -454,8 +454,23 @@ class DataFrame:
 WRITTEN = {}
 
 
-def concat(frames, axis=0):
-    frames = list(frames)
+def concat(frames, axis=0, join='outer', **kw):
+    frames = [f if isinstance(f, DataFrame) else DataFrame({f.name: list(f.data)}, index=list(f.index) if getattr(f, 'index', None) is not None else None) for f in frames]
+    if axis == 1 and frames and any(list(f.index) != list(frames[0].index) for f in frames[1:]):
+        # pandas aligns the rows of the pieces on their index LABELS: union of the labels (outer) or their intersection (inner)
+        if join == 'inner':
+            labels = [l for l in frames[0].index if all(l in f.index for f in frames[1:])]
+        else:
+            labels = []
+            for f in frames:
+                labels += [l for l in f.index if l not in labels]
+        cols, rows = [], [[] for _ in labels]
+        for f in frames:
+            cols += list(f.columns)
+            pos = {l: i for i, l in enumerate(f.index)}
+            for k, l in enumerate(labels):
+                rows[k] += list(f.rows[pos[l]]) if l in pos else [float('nan')] * len(f.columns)
+        return DataFrame(rows, columns=cols, index=labels)
     if axis == 1:
         cols, n = [], max([len(f.rows) for f in frames], default=0)
         rows = [[] for _ in range(n)]
